@@ -17,6 +17,8 @@ pub(crate) struct Rec {
     pub banned: RefCell<Vec<(PeerIndex, String)>>,
     pub disconnected: RefCell<Vec<PeerIndex>>,
     pub connected: RefCell<Vec<PeerIndex>>,
+    /// session -> address (with a peer id) for protocols that look the peer up
+    pub addrs: RefCell<std::collections::HashMap<PeerIndex, ckb_network::multiaddr::Multiaddr>>,
 }
 
 unsafe impl Send for Rec {}
@@ -35,6 +37,7 @@ impl Ctx {
                 banned: Default::default(),
                 disconnected: Default::default(),
                 connected: Default::default(),
+                addrs: Default::default(),
             }),
         }
     }
@@ -49,6 +52,13 @@ impl Ctx {
     }
     pub(crate) fn take_disconnected(&self) -> Vec<PeerIndex> {
         std::mem::take(&mut *self.inner.disconnected.borrow_mut())
+    }
+    /// give session `peer` an address carrying a fresh peer id; returns the id's text form
+    pub(crate) fn set_peer_id(&self, peer: PeerIndex) -> String {
+        let id = ckb_network::PeerId::random();
+        let addr: ckb_network::multiaddr::Multiaddr = format!("/ip4/127.0.0.1/tcp/8114/p2p/{}", id.to_base58()).parse().expect("multiaddr");
+        self.inner.addrs.borrow_mut().insert(peer, addr);
+        id.to_base58()
     }
     pub(crate) fn set_connected(&self, peers: Vec<PeerIndex>) {
         *self.inner.connected.borrow_mut() = peers;
@@ -124,8 +134,8 @@ impl CKBProtocolContext for Rec {
         self.connected.borrow_mut().retain(|p| *p != peer_index);
         Ok(())
     }
-    fn get_peer(&self, _peer_index: PeerIndex) -> Option<Peer> {
-        None
+    fn get_peer(&self, peer_index: PeerIndex) -> Option<Peer> {
+        self.addrs.borrow().get(&peer_index).map(|a| Peer::new(peer_index, ckb_network::SessionType::Outbound, a.clone(), false))
     }
     fn with_peer_mut(&self, _peer_index: PeerIndex, _f: Box<dyn FnOnce(&mut Peer)>) {}
     fn connected_peers(&self) -> Vec<PeerIndex> {
